@@ -32,6 +32,7 @@ void libdispatch_tsd_init(void) { __CPROVER_assert(0, "VA:tsd_already_initialise
 
 /* rely parameters (see dq_rely_pre.h); inactive unless the harness sets H_rely_ptr */
 const volatile void *H_rely_ptr; unsigned long long H_rely_minw;
+const volatile void *H_relyp_ptr; unsigned long long H_relyp_val;
 #define H_RELY_HOLDING_WIDTH(k) do { H_rely_ptr = &H_lane.dq_state; H_rely_minw = (DISPATCH_QUEUE_WIDTH_FULL - H_lane.dq_width) + (k); } while (0)
 /* ---- the lane under test (object) */
 struct dispatch_lane_s H_lane;
@@ -54,6 +55,8 @@ static inline void _dispatch_release_tailcall(dispatch_object_t dou) { __verif_e
 static inline void _dispatch_release_2_tailcall(dispatch_object_t dou) { __verif_event(EV_RELEASE, 0, dou._do, 2, 0); }
 static inline void _dispatch_release_2_no_dispose(dispatch_object_t dou) { __verif_event(EV_RELEASE, 0, dou._do, 2, 0); }
 static inline void _dispatch_release_no_dispose(dispatch_object_t dou) { __verif_event(EV_RELEASE, 0, dou._do, 1, 0); }
+static inline void _dispatch_release_n(dispatch_object_t dou, int n) { __verif_event(EV_RELEASE, 0, dou._do, (unsigned long long)n, 0); }
+static inline void _dispatch_retain_n(dispatch_object_t dou, int n) { __verif_event(EV_RETAIN, 0, dou._do, (unsigned long long)n, 0); }
 #endif
 /* ---- a target queue whose vtable entries are logging stubs (dx_push / dx_wakeup call-outs) */
 #ifdef DQ_STUB_TARGET
